@@ -16,10 +16,15 @@ Merge(B, rpath) ==
 (* (only possible without authority) the literal algorithm was not designed to     *)
 (* work (Errata 4547): the stack reading with its trailing "/", the literal output *)
 (* and the stack reading without trailing "/" after a kept ".." are all admitted.  *)
+(* When the stack reading starts with an empty segment (".//a" reads <<"", "a">>)  *)
+(* its plain rendering "/a" is the literal output as well, but it no longer is a   *)
+(* relative path: the rendering behind a "." shield (".//a"), which keeps the path *)
+(* relative as Errata 4547 wants, is admitted too.                                 *)
 RemoveDotsSet(p) ==
     IF IsAbs(p) THEN {Rfc524(p)}
     ELSE {Rfc524(p), Normalized(p)}
          \cup (IF NormSegs(p) # <<>> /\ LastOf(NormSegs(p)) = DOTDOT THEN {Join(FALSE, NormSegs(p))} ELSE {})
+         \cup (IF NormCopySegs(p) # <<>> /\ NormCopySegs(p)[1] = <<>> THEN {DottedOf(FALSE, NormCopySegs(p))} ELSE {})
 
 (* 5.2.2: the set of target records (one per admitted reading of remove_dots) *)
 Targets(B, R) ==
